@@ -18,6 +18,11 @@ SPEC = {
             {'fn': 'finding_failed_realloc_untracks', 'unwind': 32, 'timeout': 900, 'expect': 'fail', 'optional_witness': ['exit path'], 'bounds': 'alloc 4; realloc to 8 with a failing underlying realloc'},
         ],
     }, {
+        # ONE hash bucket (as in C07 group plugin1): the realloc obligations, which take 12-25 min with four buckets
+        'name': 'det1', 'wrapper': '../C06/wdet.cpp', 'harness': 'h05.c',
+        'config': {'stubs': STUBS, 'defines': ['-DCPPUTEST_VERIF_HASH_TABLE_SIZE=1'], 'heapcheck': False, 'empty_regex': ['^_ZN[0-9]+[A-Za-z]*FailureC[12]E']},
+        'obligations': [{'fn': 'harness_realloc_%s' % k, 'unwind': 32, 'timeout': 420, 'optional_witness': ['exit path'], 'bounds': 'ONE hash bucket; realloc %s; contents and failure of the underlying realloc symbolic' % d} for k, d in (('grow', '2 -> 4 bytes, inline record'), ('shrink', '4 -> 1 bytes, inline record'), ('grow_sep', '2 -> 4 bytes, separate record'), ('zero', '3 -> 0 bytes, inline record'))],
+    }, {
         # calloc's count x size arithmetic (the harness is shared with check C15, which owns allocation failure):
         # element sizes just above 2^64/k make overflowing products wrap to a SMALL number >= count
         'name': 'calloc', 'wrapper': '../C15/w15.cpp', 'harness': '../C15/h15s.c',
